@@ -173,6 +173,8 @@ class PrepareSimPass( BasePass ):
 
     def lock_in_simulation():
       top._check_called_at_elaborate_top( "lock_in_simulation" )
+      if getattr( top._sim, "locked_simulation", False ):
+        return # the signals have already been replaced by their values
 
       # Basically we want to avoid @= between elements in the same net since
       # we now use @=.
